@@ -3,6 +3,7 @@ from ..runner import Case
 from .. import gen
 
 ID = "C08"
+STATEFUL = True     # some blocks keep a live object across lines
 LEAN_TARGETS = ["Cider.Props.C08"]
 # source-text tie (translated on every run by tools/pyexpr2lean.py); skipped when the function no longer fits the translator
 OPTIONAL_TARGETS = ["Cider.Props.C08Src"]
@@ -18,6 +19,9 @@ EXHAUSTIVE = {"quick": "every (n+, n-, N) with n+ + n- <= N <= 40", "thorough": 
 
 
 def cases(rng, tier):
+    # the property's own queries AFTER other public calls on the same object (same answers as on a fresh one)
+    for c in gen.after_calls_cases(rng, 16 if tier == "quick" else 120, ['region']):
+        yield c
     N = 40 if tier == "quick" else 120
     for comp in gen.compositions(N):
         pat = gen.arrange(comp, rng)
